@@ -154,6 +154,7 @@ theorem doAct_err {P : Prog} {s : Scope} {a : Act} {e : Err} (h : doAct P s a = 
     rw [hs hb] at hi; cases hi
   | give p => simp [doAct] at h
   | dropAfter => exact Or.inr (Or.inl (fun h' => h'))
+  | moveOut => exact Or.inr (Or.inl (fun h' => h'))
 
 theorem assignTarget_parent {P : Prog} {s s' : Scope} {t : Place} (h : assignTarget P s t = .ok s') :
     s'.parent = s.parent := (assignTarget_proj (l := 0) h).1.1
